@@ -19,7 +19,7 @@ theorem seq_tuple_none_of_ge (I : SeqInst) (k : ℕ) (h : I.vars.length ≤ k) :
   exact List.getElem?_eq_none h
 
 
-/-! ## statements to prove (replace every `sorry`) -/
+/-! ## property theorems -/
 
 /-- `add_time_points` sorts: the result is ordered and a permutation of the input (any input order) -/
 theorem sortRat_sorted_perm (l : List ℚ) : (sortRat l).Pairwise (· ≤ ·) ∧ (sortRat l).Perm l := by
